@@ -99,7 +99,7 @@ def families(thorough):
             s.append(Case(t, stop='X', cache=cache))
     # a Parse the SERVER rejects (the relation does not exist yet), the cause goes away, the same text is prepared again -- by the same client
     # under the same or another name
-    for t in (['Pny', 'S', 'mktable', 'Pny', 'Bs', 'E', 'S'], ['Pny', 'S', 'mktable', 'Pny2', 'Bs2', 'E', 'S'], ['Pny', 'Bs', 'E', 'S', 'mktable', 'Pny', 'Bs', 'E', 'S']):
+    for t in (['Pny', 'Ps2', 'S', 'Ps2', 'Bs2', 'E', 'S'], ['Pny', 'S', 'mktable', 'Pny', 'Bs', 'E', 'S'], ['Pny', 'S', 'mktable', 'Pny2', 'Bs2', 'E', 'S'], ['Pny', 'Bs', 'E', 'S', 'mktable', 'Pny', 'Bs', 'E', 'S']):
         for cache in (2, 4):
             s.append(Case(t, stop='X', cache=cache))
     F['cache'] = s
